@@ -38,7 +38,7 @@ pub mod bits {
 }
 
 // ---- one blob part: entry data first, then the blob index page that makes it visible; nothing when the part is empty
-//@region foyer-storage/src/engine/block/flusher.rs :: impl~^impl<K, V, P> Runner<K, V, P>/fn submit_io_task name=write_blob_part start=/let offset = blob_block_offset \+ part_blob_offset;/ end=/Ok::<_, Error>\(\(block\.id\(\), blob_block_offset, indices\)\)/ rules=drop-tracing,de-async sub=@let block = block\.clone\(\);@@ sub=@block\.write\(Box::new\(data\), offset as _\)@block.write_data(data, offset as u64)@ sub=@block\.write\(Box::new\(index\), blob_block_offset as _\)@block.write_index(index, blob_block_offset as u64)@ sub=@if let Err\(e\) = res\.as_ref\(\) \{\s*\}@@
+//@region foyer-storage/src/engine/block/flusher.rs :: impl~^impl<K, V, P> Runner<K, V, P>/fn submit_io_task name=write_blob_part start=/let offset = / stmts=99 rules=drop-tracing,de-async sub=@let block = block\.clone\(\);@@ sub=@block\.write\(Box::new\(data\), (.*?) as _\)@block.write_data(data, \1 as u64)@ sub=@block\.write\(Box::new\(index\), (.*?) as _\)@block.write_index(index, \1 as u64)@ sub=@if let Err\(e\) = res\.as_ref\(\) \{\s*\}@@
 //@head
 fn write_blob_part(block: &mut BlockT, blob_block_offset: usize, index: IoSliceMut, part_blob_offset: usize, data: IoSlice, indices: Vec<BlobEntryIndex>) -> (r: core::result::Result<(BlockId, usize, Vec<BlobEntryIndex>), Error>)
     requires
@@ -56,7 +56,7 @@ fn write_blob_part(block: &mut BlockT, blob_block_offset: usize, index: IoSliceM
 //@end
 
 // ---- addresses inserted into the disk index: block, blob offset + in-blob offset, length, sequence
-//@region foyer-storage/src/engine/block/flusher.rs :: impl~^impl<K, V, P> Runner<K, V, P>/fn submit_io_task name=append_addresses start=/for index in indices \{/ end=/for index in indices \{/ rules=drop-tracing
+//@region foyer-storage/src/engine/block/flusher.rs :: impl~^impl<K, V, P> Runner<K, V, P>/fn submit_io_task name=append_addresses start=/for index in indices \{/ stmts=1 rules=drop-tracing
 //@head
 fn append_addresses(block: BlockId, blob_offset: usize, indices: Vec<BlobEntryIndex>, addrs: &mut Vec<HashedEntryAddress>)
     requires
